@@ -12,7 +12,7 @@ import hashlib, os, re, shutil, subprocess, sys, concurrent.futures
 
 VERIF = os.path.dirname(os.path.dirname(os.path.dirname(os.path.abspath(__file__))))
 SIM = os.path.join(VERIF, "sim")
-BUILD_ROOT = os.path.join(VERIF, "build")
+BUILD_ROOT = os.environ.get("VERIF_BUILD_ROOT", os.path.join(VERIF, "build"))
 WRAP = "-Wl,--wrap=posix_memalign,--wrap=free,--wrap=mmap,--wrap=munmap,--wrap=mprotect"
 SIM_SOURCES = ["rt/rt.cpp", "seams/seams.cpp", "ops/ops.cpp", "ops/exec.cpp", "ops/gen.cpp", "ops/c11.cpp", "ops/main.cpp", "model/model.cpp"]
 SIM_TSAN_SOURCES = ["seams/tsan_glue.cpp"]
